@@ -51,15 +51,15 @@ theorem intle2bits_total' (i n : Int) (s : Bool) :
   · rw [if_pos h, if_pos h]
   · rw [if_neg h, if_neg h]
 
-theorem setInt_str (sg le : Bool) (s : List Char) (len : Option Int) (cur : Option Nat) :
-    setInt sg le (.str s) len cur = .error .value := by
+theorem setInt_str (sg le en : Bool) (s : List Char) (len : Option Int) (cur : Option Nat) :
+    setInt sg le en (.str s) len cur = .error .value := by
   unfold setInt
   cases lenOrCur len cur with
   | none => rfl
-  | some n => by_cases h : n = 0 <;> simp [h, asInt]
+  | some n => by_cases h : n = 0 <;> by_cases h8 : n % 8 = 0 <;> cases en <;> simp [h, h8, asInt]
 
-theorem setInt_some (sg le : Bool) (i L : Int) (cur : Option Nat) :
-    setInt sg le (.int i) (some L) cur =
+theorem setInt_some (sg le en : Bool) (i L : Int) (cur : Option Nat) (h8 : en = true → L % 8 = 0) :
+    setInt sg le en (.int i) (some L) cur =
       if 1 ≤ L ∧ inRange sg L.toNat i = true
       then .ok (if le then bytesRev (intToBits L.toNat i) else intToBits L.toNat i) else .error .value := by
   unfold setInt
@@ -68,14 +68,23 @@ theorem setInt_some (sg le : Bool) (i L : Int) (cur : Option Nat) :
   simp only [asInt]
   by_cases h0 : L = 0
   · subst h0; simp
-  · simp only [h0, if_false]
+  · have hne : ¬ (en = true ∧ L % 8 ≠ 0) := fun ⟨a, b⟩ => b (h8 a)
+    simp only [h0, if_false, hne]
     cases le with
     | true => simp only [if_true]; rw [intle2bits_total']
     | false => simp only [Bool.false_eq_true, if_false]; rw [int2bits_total_aux]
 
-theorem setInt_none0 (sg le : Bool) (v : Val) : setInt sg le v none (some 0) = .error .value := by
-  unfold setInt lenOrCur; simp
+theorem setInt_not8 (sg le : Bool) (v : Val) (L : Int) (cur : Option Nat) (h8 : L % 8 ≠ 0) :
+    setInt sg le true v (some L) cur = .error .value := by
+  unfold setInt
+  have : lenOrCur (some L) cur = some L := by unfold lenOrCur; cases cur <;> rfl
+  rw [this]
+  by_cases h0 : L = 0
+  · simp [h0]
+  · simp [h0, h8]
 
+theorem setInt_none0 (sg le en : Bool) (v : Val) : setInt sg le en v none (some 0) = .error .value := by
+  unfold setInt lenOrCur; simp
 
 theorem step8_iff (n : Int) : ((n - 8) % (16 - 8) == 0) = true ↔ n % 8 = 0 := by
   simp only [beq_iff_eq]; omega
@@ -92,19 +101,23 @@ theorem raw_int (d : DT) (hd : isInt d = true) (len : Option Int) (i : Int) :
       simp [getDtype0, defOf, Allowed.onlyOne, callSet, bitLen, setFn, setInt_none0, valid, kwLU0, lenUncheckedKind]
   | some n =>
     by_cases h8 : n % 8 = 0
-    · have hb : ((n - 8) % (16 - 8) == 0) = true := (step8_iff n).2 h8
+    · have hs : ∀ sg le en cur, setInt sg le en (.int i) (some n) cur = _ :=
+        fun sg le en cur => setInt_some sg le en i n cur (fun _ => h8)
+      have hb : ((n - 8) % (16 - 8) == 0) = true := (step8_iff n).2 h8
       have hb2 : (n % 8 == 0) = true := by simp [h8]
       by_cases hv : 1 ≤ n ∧ inRange (isSigned d) n.toNat i = true
       · have hle := leBits_of_len n.toNat i (by omega)
         cases d <;> simp [isInt] at hd <;>
           simp only [isSigned] at hv <;>
           simp [getDtype0, defOf, Allowed.contains, callSet, bitLen, setFn, valid, encode, kwLU0, lenUncheckedKind,
-            isEndian, isSigned, setInt_some, hb, hb2, hv, hle]
+            isEndian, isSigned, hs, hb, hb2, hv, hle]
       · cases d <;> simp [isInt] at hd <;>
           simp only [isSigned] at hv <;>
           simp [getDtype0, defOf, Allowed.contains, callSet, bitLen, setFn, valid, encode, kwLU0, lenUncheckedKind,
-            isEndian, isSigned, setInt_some, hb, hb2, hv] <;> (intro h1 h2; exact absurd ⟨h1, h2⟩ hv)
-    · have hb : ((n - 8) % (16 - 8) == 0) = false := by
+            isEndian, isSigned, hs, hb, hb2, hv]
+    · have hs : ∀ sg le cur, setInt sg le false (.int i) (some n) cur = _ :=
+        fun sg le cur => setInt_some sg le false i n cur (fun h => by cases h)
+      have hb : ((n - 8) % (16 - 8) == 0) = false := by
         cases hh : ((n - 8) % (16 - 8) == 0) with
         | false => rfl
         | true => exact absurd ((step8_iff n).1 hh) h8
@@ -113,11 +126,11 @@ theorem raw_int (d : DT) (hd : isInt d = true) (len : Option Int) (i : Int) :
       · cases d <;> simp [isInt] at hd <;>
           simp only [isSigned] at hv <;>
           simp [getDtype0, defOf, Allowed.contains, callSet, bitLen, setFn, valid, encode, kwLU0, lenUncheckedKind,
-            isEndian, isSigned, setInt_some, hb, hb2, hv]
+            isEndian, isSigned, hs, hb, hb2, hv]
       · cases d <;> simp [isInt] at hd <;>
           simp only [isSigned] at hv <;>
           simp [getDtype0, defOf, Allowed.contains, callSet, bitLen, setFn, valid, encode, kwLU0, lenUncheckedKind,
-            isEndian, isSigned, setInt_some, hb, hb2, hv] <;> (intro h1 h2; exact absurd ⟨h1, h2⟩ hv)
+            isEndian, isSigned, hs, hb, hb2, hv]
 
 theorem raw_int_str (d : DT) (hd : isInt d = true) (len : Option Int) (s : List Char) :
     raw0 d len (.str s) = spec30 d len (.str s) := by
@@ -504,7 +517,7 @@ theorem raw_fx4_str (len : Option Int) (s : List Char) : raw0 .fx4 len (.str s) 
     · subst hn; simp [getDtype0, defOf, Allowed.contains, callSet, bitLen, setFn, setFx, valid, kwLU0, lenUncheckedKind]
     · simp [getDtype0, defOf, Allowed.contains, callSet, bitLen, setFn, valid, hn, kwLU0, lenUncheckedKind]
 
-/-- Every route without its final length check: valid → the encoding; the `kw_len_unchecked` region → the
+/-- Every route without its final length check: valid → the encoding; `kwLU0` (the final check is what rejects these) → the
     value's own bits; otherwise ValueError. -/
 theorem raw0_eq (d : DT) (len : Option Int) (v : Val) (hw : wellTyped d v = true) : raw0 d len v = spec30 d len v := by
   cases d with
